@@ -1,6 +1,7 @@
 package engine
 
 import (
+	"context"
 	"encoding/json"
 	"fmt"
 	"sort"
@@ -8,6 +9,8 @@ import (
 	"strings"
 
 	"github.com/mimiro-io/datahub/internal/jobs"
+	"github.com/mimiro-io/datahub/internal/jobs/source"
+	"github.com/mimiro-io/datahub/internal/server"
 )
 
 func (s *Session) msConfig() *jobs.JobConfiguration {
@@ -83,7 +86,90 @@ func (s *Session) catchUp(st *Step) error {
 	if len(foreign) > 0 {
 		s.diverge("multisource-foreign", q, map[string]any{"only-from-main": st.AllowedE}, foreign, "")
 	}
-	// tokens stand at the end of the feeds
+	s.compareMsToken(q, token, st)
+	_ = fmt.Sprint
+	return nil
+}
+
+// msFullSyncStep drives the first (full) run of the MultiSource job page by page, the way a fullsync
+// pipeline does (StartFullSync, ReadEntities with the stored token and a batch size of 1, EndFullSync when a
+// page comes back empty, token stored as the job's state), so that other steps can happen between its pages.
+func (s *Session) msFullSyncStep(st *Step) error {
+	cfg := s.msConfig()
+	sched := s.W.Sched()
+	q := map[string]any{"step": st.A}
+	switch st.A {
+	case "fsstart":
+		src, err := sched.VerifSource(cfg)
+		if err != nil {
+			return err
+		}
+		s.msSrc, s.msTok = src, ""
+		src.StartFullSync()
+		s.NonTriv = true
+		return nil
+	}
+	if s.msSrc == nil {
+		return fmt.Errorf("%s without a running full sync", st.A)
+	}
+	tok, err := source.DecodeToken("MultiSource", s.msTok)
+	if err != nil {
+		return err
+	}
+	var got []*server.Entity
+	next := s.msTok
+	err = s.msSrc.ReadEntities(context.Background(), tok, 1, func(ents []*server.Entity, c source.DatasetContinuation) error {
+		got = append(got, ents...)
+		enc, eerr := c.Encode()
+		if eerr != nil {
+			return eerr
+		}
+		next = enc
+		return nil
+	})
+	s.Checks++
+	if err != nil {
+		s.diverge("multisource-page", q, "the page is read", err.Error(), "")
+		return nil
+	}
+	s.msTok = next
+	emitted := map[string]bool{}
+	var em []string
+	for _, e := range got {
+		if !emitted[s.entAbstract(e.ID)] {
+			em = append(em, s.entAbstract(e.ID))
+		}
+		emitted[s.entAbstract(e.ID)] = true
+	}
+	sort.Strings(em)
+	if st.A == "fspage" {
+		for _, r := range st.Required {
+			if !emitted[r] {
+				s.diverge("multisource-missing", q, map[string]any{"required": st.Required}, map[string]any{"emitted": em}, "page of the first full run")
+			}
+		}
+		for _, e := range em {
+			if !contains(st.AllowedE, e) {
+				s.diverge("multisource-foreign", q, map[string]any{"only-from-main": st.AllowedE}, em, "")
+			}
+		}
+		return nil
+	}
+	// fsend: the page must be empty; the run ends and its token is stored
+	if len(em) > 0 {
+		s.diverge("multisource-page", q, "an empty page (everything was read)", em, "")
+	}
+	s.msSrc.EndFullSync()
+	s.msSrc = nil
+	if err := sched.VerifSetJobToken(cfg.ID, s.msTok); err != nil {
+		return err
+	}
+	s.compareMsToken(q, s.msTok, st)
+	return nil
+}
+
+// compareMsToken compares an encoded MultiSource token with the positions the specification requires.
+func (s *Session) compareMsToken(q map[string]any, token string, st *Step) {
 	var tk struct {
 		MainToken        string
 		DependencyTokens map[string]struct{ Token string }
@@ -107,6 +193,4 @@ func (s *Session) catchUp(st *Step) error {
 	if bad {
 		s.diverge("multisource-token", q, map[string]any{"main": st.MainTok, "deps": expDep}, map[string]any{"main": mt, "deps": gotDep, "raw": strings.TrimSpace(token)}, "")
 	}
-	_ = fmt.Sprint
-	return nil
 }
